@@ -35,6 +35,7 @@ PROFILES = {'R': ['float64', 'float32'], 'C': ['complex128', 'complex64'], 'I': 
 SIZES = [2, 5, 98, 100, 102, 49998, 50000, 50001]
 NAN_TOKEN = [[0, 0], [0, 0]]
 DRIFT = set()
+SPELL = [0]
 FIXED_AXPY = '1'      # layer-C model flag: mirrors the fallback_axpy form of the current tree
 
 
@@ -153,11 +154,17 @@ def perform(space, objs, act, dtype):
     op = act['op']
     g = lambda i: objs[i - 1]
     sc = lambda c: cnum_to_scalar(c, dtype)
+    alt = SPELL[0] % 2 == 1       # alternate between the space-level and the element-level spelling of the same call
+    SPELL[0] += 1
     if op == 'lincomb':
         out = None if act['o'] == 0 else g(act['o'])
+        if alt and out is not None:
+            return out.lincomb(sc(act['a']), g(act['x']), sc(act['b']), g(act['y']))
         return space.lincomb(sc(act['a']), g(act['x']), sc(act['b']), g(act['y']), out=out)
     if op == 'lincomb1':
         out = None if act['o'] == 0 else g(act['o'])
+        if alt and out is not None:
+            return out.lincomb(sc(act['a']), g(act['x']))
         return space.lincomb(sc(act['a']), g(act['x']), out=out)
     if op == 'bin':
         return PYOP[act['f']](g(act['x']), g(act['y']))
@@ -196,9 +203,13 @@ def perform(space, objs, act, dtype):
         return +g(act['x'])
     if op == 'multiply':
         out = None if act['o'] == 0 else g(act['o'])
+        if alt:
+            return g(act['x']).multiply(g(act['y']), out=out)
         return space.multiply(g(act['x']), g(act['y']), out=out)
     if op == 'divide':
         out = None if act['o'] == 0 else g(act['o'])
+        if alt:
+            return g(act['x']).divide(g(act['y']), out=out)
         return space.divide(g(act['x']), g(act['y']), out=out)
     if op == 'assign':
         g(act['x']).assign(g(act['y']))
